@@ -169,6 +169,7 @@ pub fn default_transfer(method: u8, path: Vec<Vec<u8>>, kind: TKind) -> Transfer
         path,
         con: true,
         token_len: 4,
+        token_vary: false,
         extra: vec![],
         kind,
         probe: Probe::None,
